@@ -54,6 +54,7 @@ PROPS = {
         ],
     },
     "C09": {
+        "rerun_process": True,
         "families": [{"name": "hist"}],
         "assumptions": [
             "determinism is structural in Gallina; the source-level audit (no ambient state outside fast_verify, forbid(unsafe_code)) is recomputed by the translator on every run; thread interleavings are runtime behaviour and are only sampled",
